@@ -76,6 +76,21 @@ def extract_module(path):
     iface = {}
     rows = []
     in_if, in_contains = False, False
+    # bind(C) derived types WITHOUT a capsule component are C structs: a dummy of such a type is an interoperable value that is
+    # passed as it is (not a shadow object whose capsule is passed)
+    plain_structs = set()
+    cur_t, has_mem = None, False
+    for ln in lines:
+        lw = ln.strip().lower()
+        mt = re.match(r"^type\s*,\s*bind\s*\(\s*c\s*\)\s*(?:::)?\s*(\w+)", lw)
+        if mt:
+            cur_t, has_mem = mt.group(1), False
+        elif cur_t and re.match(r"^end\s+type", lw):
+            if not has_mem:
+                plain_structs.add(cur_t)
+            cur_t = None
+        elif cur_t and "cxxmem" in lw:
+            has_mem = True
     i = 0
     while i < len(lines):
         s = lines[i].strip()
@@ -123,7 +138,8 @@ def extract_module(path):
                             # (a single character passed by value / without a length is not text with a length: DOther)
                             kinds[nm] = "DOther" if (isarr or "len" not in md.group(2).lower()) else "DChar"
                         elif base in ("type", "class"):
-                            kinds[nm] = "DOther" if ("c_ptr" in attrs or "shroud" in attrs or isarr) else "DObj"
+                            tn = re.match(r"^\s*\(\s*(\w+)\s*\)", attrs)
+                            kinds[nm] = "DOther" if ("c_ptr" in attrs or "shroud" in attrs or isarr or (base == "type" and tn and tn.group(1) in plain_structs)) else "DObj"
                         else:
                             kinds[nm] = "DOther"
                     continue
